@@ -1303,6 +1303,7 @@ func (sp StorageProof) MarshalJSON() ([]byte, error) {
 // UnmarshalJSON implements json.Unmarshaler.
 func (sp *StorageProof) UnmarshalJSON(b []byte) error {
 	var leaf string
+	*sp = StorageProof{} // members that are null or absent must not keep what the receiver held before
 	err := json.Unmarshal(b, &struct {
 		ParentID *FileContractID
 		Leaf     *string
@@ -1330,6 +1331,7 @@ func (sp V2StorageProof) MarshalJSON() ([]byte, error) {
 // UnmarshalJSON implements json.Unmarshaler.
 func (sp *V2StorageProof) UnmarshalJSON(b []byte) error {
 	var leaf string
+	*sp = V2StorageProof{} // members that are null or absent must not keep what the receiver held before
 	err := json.Unmarshal(b, &struct {
 		ProofIndex *ChainIndexElement
 		Leaf       *string
